@@ -17,6 +17,16 @@ META = {
 }
 
 
+def _only_under_option(fn: ast.FunctionDef, option: str) -> bool:
+    """The function returns at once unless self.<option> is set: its first statement is
+    ``if not self.<option>: return``."""
+    body = [st for st in fn.body if not (isinstance(st, ast.Expr) and isinstance(st.value, ast.Constant) and isinstance(st.value.value, str))]
+    if not body or not isinstance(body[0], ast.If):
+        return False
+    t = body[0].test
+    return isinstance(t, ast.UnaryOp) and isinstance(t.op, ast.Not) and norm(t.operand) == f"self.{option}" and len(body[0].body) == 1 and isinstance(body[0].body[0], ast.Return) and body[0].body[0].value is None
+
+
 def run(ctx: Ctx) -> None:
     e = models.env(ctx)
     repo, S, G = ctx.repo, e.S, e.G
@@ -261,6 +271,9 @@ def run(ctx: Ctx) -> None:
         from ..pyfacts import unordered_iterations
 
         bad += unordered_iterations(repo, q, fn)
+        if bad and _only_under_option(fn, "separate_complex_types"):
+            ctx.ok("R3", q, repo.loc(q.split(".")[0], fn), f"{bad} only runs when separate_complex_types is set, which dumps() leaves off by default (order under that option: C04 N4 / C06 O3)", nontrivial=False)
+            continue
         if q == "dictutils.dict_move_to_end":
             ctx.ok("R3", q, repo.loc(q.split(".")[0], fn), "tabled: only reached under separate_complex_types (C06)", nontrivial=False)
             continue
